@@ -19,10 +19,10 @@ namespace {
 enum OpKind { OP_PUSH = 0, OP_REKEY = 1, OP_DELIVER = 2, OP_GIANT = 3, OP_GIANT_MSG = 4 };
 enum Fault {
     F_INTACT = 0, F_DROP, F_DUP, F_DELAY, F_TRUNC, F_EXTEND, F_FLIP_TAGBYTE, F_FLIP_CT, F_FLIP_MAC,
-    F_AD_FLIP, F_AD_DROP, F_AD_EXTEND, F_AD_SWAP, F_CROSS, F_REPLAY_OLD, F_NFAULTS
+    F_AD_FLIP, F_AD_DROP, F_AD_EXTEND, F_AD_SWAP, F_CROSS, F_REPLAY_OLD, F_MAC_PATTERN, F_NFAULTS
 };
 const char *fault_name[F_NFAULTS] = {"intact", "drop", "dup", "delay", "truncate", "extend", "flip_tagbyte", "flip_ct", "flip_mac",
-                                     "ad_flip", "ad_drop", "ad_extend", "ad_swap", "cross", "replay_old"};
+                                     "ad_flip", "ad_drop", "ad_extend", "ad_swap", "cross", "replay_old", "mac_structured_change"};
 
 struct Op {
     int kind = OP_PUSH;
@@ -422,6 +422,23 @@ struct Exec {
             break;
         }
         case F_FLIP_MAC: { size_t pos = bytes.size() - 16 + (op.fa % 16); bytes[pos] ^= (unsigned char) (1u << (op.fb % 8)); break; }
+        case F_MAC_PATTERN: {
+            // several authenticator bytes changed in a way that cancels out under a comparison that folds its differences
+            // (same mask eight / four bytes apart, all bytes, halves swapped, +1/-1 eight bytes apart)
+            ref::Bytes before = bytes;
+            unsigned char *mac = bytes.data() + bytes.size() - 16;
+            unsigned char mask = (unsigned char) (op.fb | 1);
+            size_t j = op.fa % 8;
+            switch ((op.fa >> 8) % 5) {
+            case 0: mac[j] ^= mask; mac[j + 8] ^= mask; break;
+            case 1: mac[j % 4 + 4 * ((op.fa >> 4) % 3)] ^= mask; mac[j % 4 + 4 * ((op.fa >> 4) % 3) + 4] ^= mask; break;
+            case 2: for (int q = 0; q < 16; q++) mac[q] ^= mask; break;
+            case 3: for (int q = 0; q < 8; q++) std::swap(mac[q], mac[q + 8]); break;
+            default: mac[j]++; mac[j + 8]--; break;
+            }
+            if (bytes == before) mac[0] ^= 1;
+            break;
+        }
         case F_AD_FLIP: if (!ad.empty()) ad[op.fa % ad.size()] ^= (unsigned char) (1u << (op.fb % 8)); else ad.push_back((unsigned char) op.fb); break;
         case F_AD_DROP: ad.clear(); break;
         case F_AD_EXTEND: ad.push_back((unsigned char) op.fa); break;
